@@ -1,6 +1,7 @@
 import PlasVerif.Driver.Util
 import PlasVerif.Spec.Isolation
 import PlasVerif.Model.ClassCache
+import PlasVerif.Model.Holders
 namespace PlasVerif.Driver.C17
 open PlasVerif.Driver PlasVerif.Model.GlobalState PlasVerif.Spec.Isolation PlasVerif.Generated.GlobalState
 
@@ -116,6 +117,21 @@ def runSpec (v : Variant) : List (List Ev) → List String
     let wc := last && !v.colsDoc && definesCol d
     s!"{traceStr (canon (process v fresh d).2)} # {snapStr init wr wi wc}" :: runSpec v ds
 
+/-- oracle of stream `gread` (theorem `isolation_partial_reads`): earlier documents may assign registers and define
+    column types; every document that reads none of those must still give the trace it gives alone, and after it only
+    the registers / column types written so far may differ from their initial values -/
+def runSpecReads (v : Variant) : List (List Ev) → List (List Ev) → Option (List String)
+  | _, [] => some []
+  | prev, d :: ds =>
+    if Unobserved prev d then do
+      let all := prev ++ [d]
+      let wr := !v.regsDoc && all.any assignsReg
+      let wi := !v.classDoc && all.any patchesClass
+      let wc := !v.colsDoc && all.any definesCol
+      let rest ← runSpecReads v all ds
+      pure (s!"{traceStr (canon (process v fresh d).2)} # {snapStr init wr wi wc}" :: rest)
+    else none
+
 /-! stream `ccache`:  `<inherit bit> c<id>:<mro ids, most derived first>:<own k=v,..|-> … | <ids looked up>` -/
 section CC
 open PlasVerif.Model.ClassCache
@@ -150,7 +166,29 @@ def handleCC (inh : String) (rest : List String) : String :=
   | _, _, _ => "bad-op"
 end CC
 
+/-! stream `holders`:  `E<a>b,a>b,…|-> A<ids> B<ids>`  → objects reachable from both root sets -/
+def edge? (s : String) : Option (Nat × Nat) :=
+  match s.splitOn ">" with
+  | [a, b] => do pure (← a.toNat?, ← b.toNat?)
+  | _ => none
+
+def handleHolders : List String → String
+  | [e, a, b] =>
+    let es := (e.drop 1).toString
+    match (if es == "-" then some [] else (es.splitOn ",").mapM edge?), nats? (a.drop 1).toString, nats? (b.drop 1).toString with
+    | some edges, some ra, some rb => s!"shared:{csvNats (PlasVerif.Model.Holders.shared edges ra rb)}\tshared:-"
+    | _, _, _ => "bad-op"
+  | _ => "bad-op"
+
 def handle : List String → String
+  | "gread" :: vb :: rest =>
+    let (st, docs) := splitAt1 "|" rest
+    match variant? vb, state? st, (splitAll ";" docs).mapM (fun ws => ws.mapM ev?) with
+    | some v, some g, some ds =>
+      let model := " ; ".intercalate (runModel v (g, 0) ds)
+      let spec := if st == ["I"] then ((runSpecReads v [] ds).map (" ; ".intercalate ·)).getD "-" else "-"
+      s!"{model}\t{spec}"
+    | _, _, _ => "bad-op"
   | "gstate" :: vb :: rest | "gleak" :: vb :: rest =>
     let (st, docs) := splitAt1 "|" rest
     match variant? vb, state? st, (splitAll ";" docs).mapM (fun ws => ws.mapM ev?) with
@@ -160,6 +198,7 @@ def handle : List String → String
       s!"{model}\t{spec}"
     | _, _, _ => "bad-op"
   | "ccache" :: inh :: rest => handleCC inh rest
+  | "holders" :: rest => handleHolders rest
   | _ => "bad-op"
 
 end PlasVerif.Driver.C17
